@@ -18,8 +18,8 @@ def is_update_op(o):
         return True
     if o.op == "write" and o.cls == "w" and o.path.startswith("$R1"):
         return True
-    if o.op == "rename":
-        return True
+    if o.op == "rename" and (o.path.startswith("$R1") or o.path2.startswith("$R0/src")):
+        return True      # (the lock file's own rename is not "the new content of a file": C02/C16 govern the lock)
     return False
 
 
